@@ -20,6 +20,9 @@ CHECKS = {
  'C41': dict(cat='proof', tech='deductive: postconditions on get_lower_supported/protocol_downgrade, inductive invariant + variant on the _try_connect negotiation loop, flag-ordering obligation on process_msg',
              text='Step-down-only and termination are an inductive loop invariant and a strictly decreasing variant on the real negotiation loop with the '
                   'server modelled as arbitrary; callee contracts are verified separately on the real bodies.', ref='DESIGN.md §4 C41'),
+ 'C24': dict(cat='proof', tech='deductive: postconditions on new_schedule/_add_jitter/_ReconnectionHandler.run; generator loop cut at an inductive invariant (one in-bounds item per attempt, exit exactly at max_attempts)',
+             text='Counts and bounds of both schedules are postconditions/loop invariants on the real generator code for all real delays and all attempt limits incl. 0 and None (no bound on the number of items); delays are reals (A-REAL).',
+             ref='DESIGN.md §4 C24'),
 }
 
 NA_REASON = {}
